@@ -71,7 +71,9 @@ pub fn build_base(path: &str, pagesize: u64, commits_code: usize) -> Result<Base
     // 3000 + n: the last commit makes committed leaves split; 4000 + n: the last commit deletes a
     // committed bucket and allocates many pages (what the previous header points to must survive both)
     // 5000 + n: the last commit writes leaves that end exactly at the end of their page run
-    let tail_kind = if commits_code >= 5000 { 3 } else if commits_code >= 4000 { 2 } else if commits_code >= 3000 { 1 } else { 0 };
+    // 6000 + n: after the n commits, a commit whose final sync fails (its header is in the file), a
+    // writer that is abandoned, and one more commit
+    let tail_kind = if commits_code >= 6000 { 4 } else if commits_code >= 5000 { 3 } else if commits_code >= 4000 { 2 } else if commits_code >= 3000 { 1 } else { 0 };
     let commits = commits_code % 1000;
     for i in 1..=commits {
         let v = r.step(&Action::Tx { ops: commit_ops(i), commit: true }, &Oracles::NONE);
@@ -96,7 +98,25 @@ pub fn build_base(path: &str, pagesize: u64, commits_code: usize) -> Result<Base
         }
         states.push(r.model.clone());
     }
-    if tail_kind > 0 {
+    if tail_kind == 4 {
+        let v = r.step(&Action::TxFail { ops: commit_ops(commits + 1), call: 1001 }, &Oracles::NONE);
+        if !v.is_empty() || r.poisoned {
+            return Err(format!("base construction failed at the commit whose final sync fails: {:?}", v));
+        }
+        if r.model == *states.last().unwrap() {
+            return Err("the commit whose final sync failed is not visible (expected: its header is in the file)".into());
+        }
+        states.push(r.model.clone());
+        let v = r.step(&Action::Tx { ops: vec![OpSpec::put(&["m"], "abandoned", "w*300"), OpSpec::put(&["m", "sub"], "abandoned", "x*1500")], commit: false }, &Oracles::NONE);
+        if !v.is_empty() || r.poisoned {
+            return Err(format!("base construction failed at the abandoned writer: {:?}", v));
+        }
+        let v = r.step(&Action::Tx { ops: commit_ops(commits + 2), commit: true }, &Oracles::NONE);
+        if !v.is_empty() || r.poisoned {
+            return Err(format!("base construction failed at the commit after the abandoned writer: {:?}", v));
+        }
+        states.push(r.model.clone());
+    } else if tail_kind > 0 {
         let ops: Vec<OpSpec> = if tail_kind == 3 {
             // page header 40 + element 32 + key 1 + value = 1024 resp. 2048
             vec![OpSpec::bucket("create", &[], "z1"), OpSpec::put(&["z1"], "o", &format!("t*{}", pagesize - 73)), OpSpec::bucket("create", &[], "z2"), OpSpec::put(&["z2"], "o", &format!("t*{}", 2 * pagesize - 73)), OpSpec::put(&["m"], "shared", "exact*40")]
@@ -394,6 +414,8 @@ pub fn run(check: &mut Check) {
         codes.push(4002);
         codes.push(5003);
         codes.push(5002);
+        codes.push(6002);
+        codes.push(6003);
         if tier == Tier::Thorough {
             codes.push(1005);
             codes.push(2004);
